@@ -92,7 +92,36 @@ func newConcreteEval(lib *SpecLib) *concreteEval {
 			return ce.call("keccak.padBit", []*cval{a[0], a[1], a[2], cInt(i)})
 		}}}
 	}
+	// pack.insBits / pack.delBits: axioms insBits_sel / delBits_sel
+	ce.special["pack.insBits"] = func(a []*cval) *cval {
+		return &cval{k: 'a', arr: &carr{lazy: func(i *big.Int) *cval {
+			return ce.call("pack.insBit", []*cval{a[0], a[1], a[2], a[3], cInt(i)})
+		}}}
+	}
+	ce.special["pack.delBits"] = func(a []*cval) *cval {
+		return &cval{k: 'a', arr: &carr{lazy: func(i *big.Int) *cval {
+			return ce.call("pack.delBit", []*cval{a[0], a[1], a[2], a[3], cInt(i)})
+		}}}
+	}
+	// pack.beSwap: axiom beSwap_sel
+	ce.special["pack.beSwap"] = func(a []*cval) *cval {
+		n := a[1].i
+		return &cval{k: 'a', arr: &carr{lazy: func(i *big.Int) *cval {
+			if i.Sign() < 0 || i.Cmp(n) >= 0 {
+				return cInt(new(big.Int))
+			}
+			return a[0].arr.get(ce.call("pack.beIdx", []*cval{cInt(i), a[1]}).i)
+		}}}
+	}
 	return ce
+}
+
+func intArray(vs []*big.Int) *cval {
+	m := map[string]*cval{}
+	for i, v := range vs {
+		m[fmt.Sprint(i)] = cInt(v)
+	}
+	return &cval{k: 'a', arr: &carr{def: cInt(new(big.Int)), m: m}}
 }
 
 func (ce *concreteEval) call(name string, args []*cval) *cval {
